@@ -1,3 +1,4 @@
+#![allow(unexpected_cfgs)]
 use directive::{is_directive, parse_directive, Directive, NormalDirective};
 use fnv::FnvHashMap;
 use indexmap::IndexSet;
@@ -22,6 +23,33 @@ mod patch_flags;
 mod resolve_type;
 mod slot_flag;
 mod util;
+
+/// Thin re-exports of pure helpers, only for the external verification harness in /verif
+/// (built with `RUSTFLAGS="--cfg swc_vue_jsx_verif"`); absent from normal builds.
+#[cfg(swc_vue_jsx_verif)]
+pub mod verif_hooks {
+    pub fn transform_text(text: &str) -> String {
+        crate::util::transform_text(text)
+    }
+
+    pub fn is_on(attr_name: &str) -> bool {
+        crate::util::is_on(attr_name)
+    }
+
+    pub fn patch_flags() -> Vec<(&'static str, i16)> {
+        crate::patch_flags::PatchFlags::all()
+            .iter_names()
+            .map(|(name, flag)| (name, flag.bits()))
+            .collect()
+    }
+
+    pub fn slot_flags() -> Vec<(&'static str, u8)> {
+        vec![
+            ("Stable", crate::slot_flag::SlotFlag::Stable as u8),
+            ("Dynamic", crate::slot_flag::SlotFlag::Dynamic as u8),
+        ]
+    }
+}
 
 const FRAGMENT: &str = "Fragment";
 const KEEP_ALIVE: &str = "KeepAlive";
